@@ -79,6 +79,9 @@ func (c *Config) load(configPath string, isGlobal bool) error {
 			}
 		} else {
 			splitText := strings.SplitN(strings.Replace(text, "\t", "", -1), "=", 2)
+			if len(splitText) != 2 || ident == "" {
+				return ErrInvalidIdentifier
+			}
 			key := strings.TrimSpace(splitText[0])
 			value := strings.TrimSpace(splitText[1])
 			if isGlobal {
